@@ -31,6 +31,7 @@ type Step struct {
 	Name   string // option name (assignment) or command
 	Value  string
 	Bare   bool     // assignment written as a bare word (bool option or radio choice)
+	Bad    bool     // an assignment pprof rejects (unparsable number): it must change nothing
 	Args   []string // command arguments (focus/ignore words, count, -cum)
 	Redir  int      // 0 stdout, 1 ">fileN", 2 "> fileN", 3 ">failN" (the writer refuses to open it), 4 ">same" (one file name used by several commands)
 }
@@ -96,6 +97,11 @@ func genCase(t *rapid.T) *histCase {
 				s.Name = rapid.SampledFrom([]string{"nodecount", "nodefraction", "edgefraction", "divide_by", "unit"}).Draw(t, "numopt")
 				s.Value = map[string][]string{"nodecount": {"-1", "0", "1", "2", "5"}, "nodefraction": {"0", "0.1", "0.5"}, "edgefraction": {"0", "0.2"}, "divide_by": {"1", "2"}, "unit": {"minimum", "auto"}}[s.Name][0]
 				s.Value = rapid.SampledFrom(map[string][]string{"nodecount": {"-1", "0", "1", "2", "5"}, "nodefraction": {"0", "0.1", "0.5"}, "edgefraction": {"0", "0.2"}, "divide_by": {"1", "2"}, "unit": {"minimum", "auto"}}[s.Name]).Draw(t, "nval")
+				if s.Name != "unit" && rapid.IntRange(0, 3).Draw(t, "badnum") == 0 {
+					// a typo: refused with an error message
+					s.Value += rapid.SampledFrom([]string{"x", "..", "e", " 1"}).Draw(t, "typo")
+					s.Bad = true
+				}
 			case 5:
 				// how file names are shortened for display (derived from source_path when trim_path is empty)
 				s.Name = rapid.SampledFrom([]string{"source_path", "source_path", "trim_path"}).Draw(t, "pathopt")
@@ -236,7 +242,7 @@ func canaryProfile() *profile.Profile {
 }
 
 func runCanary() string {
-	s := runSession(canaryProfile(), []string{"top", "callgrind", "proto", "topproto", "tree", "peek work", "tags", "traces", "dot >c1", "callgrind >c2", "raw >c3", "list work", "top 1 -cum"})
+	s := runSession(canaryProfile(), []string{"top", "callgrind", "proto", "topproto", "tree", "peek work", "tags", "traces", "dot >c1", "callgrind >c2", "raw >c3", "list work", "top 1 -cum", "help", "help granularity", "o"})
 	var b strings.Builder
 	b.WriteString("announcements:\n" + announcements(s.res) + "\nstdout:\n" + s.stdout + "\nfiles:\n")
 	for _, n := range []string{"c1", "c2", "c3"} {
@@ -245,6 +251,9 @@ func runCanary() string {
 	if s.res.Panic != "" {
 		b.WriteString("panic: " + s.res.Panic)
 	}
+	// what help and the option listing print (after the listing itself ran: it must not reorder anything)
+	prints, _ := s.res.UI.Snapshot()
+	b.WriteString("\nprinted:\n" + strings.Join(prints, "\n"))
 	return b.String()
 }
 
@@ -311,6 +320,10 @@ func check(c *histCase, o *vk.Obs) []string {
 	mutating := false
 	nontrivial := false
 	for i, s := range c.Steps {
+		if s.Assign && s.Bad {
+			o.Label("rejected-assignment")
+			continue
+		}
 		if s.Assign {
 			assigns = append(assigns, s.line(i))
 			if s.Name == "focus" || s.Name == "hide" || s.Name == "show" || s.Name == "show_from" || s.Name == "prune_from" || radio[s.Name] == "granularity" || s.Name == "granularity" || s.Name == "tagroot" || s.Name == "noinlines" {
